@@ -69,6 +69,8 @@ pub struct Sc {
     pub pg_event: bool,
     /// S is busy (its supervision handler awaits) instead of idle
     pub busy_sup: bool,
+    /// the supervisor is draining a backlog (it is alive and still serves its supervision port) while A exits
+    pub sup_drains: bool,
 }
 
 impl Sc {
@@ -83,7 +85,7 @@ impl Sc {
             self.senders,
             if self.child { "+child" } else { "" },
             if self.pg_event { "+pg" } else { "" },
-            if self.busy_sup { "+busysup" } else { "" }
+            if self.sup_drains { "+drainsup" } else if self.busy_sup { "+busysup" } else { "" }
         )
         .replace(['(', ')', '"', ' '], "")
     }
@@ -236,6 +238,12 @@ pub async fn run_scenario(sc: Sc) -> Run {
     #[cfg(feature = "alt")]
     b_ref.get_cell().monitor(a_ref.get_cell());
 
+    if sc.sup_drains {
+        // two slow messages, then the drain request: S stays alive (Draining) for 6 ms of virtual time
+        let _ = s_ref.cast(do_msg(90, vec![Step::SleepMs(3)]));
+        let _ = s_ref.cast(do_msg(91, vec![Step::SleepMs(3)]));
+        let _ = s_ref.drain();
+    }
     // stimuli
     let mut tasks = Vec::new();
     for s in 0..sc.senders {
